@@ -95,10 +95,21 @@ func repTerm(fsys fs.FS, asset string, as asSpec, r repSpec) string {
 	initURI := replaceIDs(as.Init, r.ID)
 	mediaURI := replaceIDs(as.Media, r.ID)
 	image := as.ContentType == "image"
-	iobs, trex := "IBad", (*mp4.TrexBox)(nil)
+	trex := (*mp4.TrexBox)(nil)
 	if !image {
-		iobs, trex = initObs(fsys, pathJoin(asset, initURI))
+		_, trex = initObs(fsys, pathJoin(asset, initURI))
 	}
+	// every init segment of the asset by URI (a stale metadata file may name another one than the MPD)
+	var inits []string
+	_ = fs.WalkDir(fsys, asset, func(p string, d fs.DirEntry, err error) error {
+		if err == nil && !d.IsDir() && (strings.HasSuffix(p, "init.mp4") || p == pathJoin(asset, initURI)) {
+			o, _ := initObs(fsys, p)
+			inits = append(inits, fmt.Sprintf("(%s, %s)", lib.CoqString(strings.TrimPrefix(p, asset+"/")), o))
+		}
+		return nil
+	})
+	sort.Strings(inits)
+	iobs := "(inits_of [" + strings.Join(inits, "; ") + "])"
 	// $Number$ files
 	var files []string
 	if strings.Contains(mediaURI, "$Number$") {
@@ -151,7 +162,7 @@ func repTerm(fsys fs.FS, asset string, as asSpec, r repSpec) string {
 		timeline = "(Some [" + strings.Join(es, "; ") + "])"
 	}
 	return fmt.Sprintf("{| m_id := %s; m_ctype := %s; m_as_codecs := %s; m_rep_codecs := %s; m_inituri := %s; m_mediauri := %s; "+
-		"m_timescale := %s; m_timeline := %s; m_startnr := %s; m_endnr := %s; m_duration := %s; m_init := %s; "+
+		"m_timescale := %s; m_timeline := %s; m_startnr := %s; m_endnr := %s; m_duration := %s; m_init_at := %s; "+
 		"m_files := [%s]; m_tfiles := tfiles_of [%s] |}",
 		lib.CoqString(r.ID), lib.CoqString(as.ContentType), lib.CoqString(as.Codecs), lib.CoqString(r.Codecs),
 		lib.CoqString(initURI), lib.CoqString(mediaURI), optZ(as.StTimescale), timeline, optZ(as.StartNr), optZ(as.EndNr),
